@@ -35,7 +35,7 @@ Theorem client_validated_ports_in_range c :
 Proof.
   unfold vs_client_ok. cbv zeta. intros H.
   repeat (apply andb_true_iff in H; destruct H as [H ?]).
-  intros name p [E|[]]. injection E as _ <-. apply vs_web_server_port. assumption.
+  intros name p [E|[E|[]]]; injection E as _ <-; [apply vs_web_server_port|apply val_port_range]; assumption.
 Qed.
 
 Lemma vs_pair_eqb_eq a b : vs_pair_eqb a b = true -> a = b.
